@@ -31,9 +31,47 @@ Example C01_example :
   = Some [49;50;254;253;49;50;51;52;53;54;254;253;7]%N.
 Proof. vm_compute. split; reflexivity. Qed.
 
+(* ---- the same encoder at memory level (hcobs/GeoEnc.v: EncoderState writing into the geometry-faithful OwningIovec of
+   iovec/Geo.v through push / push_copy / register_patch / backfill_or_panic) ----
+   For every history of encode (borrowed) and encode_copy calls interleaved with consumer Reads: if the run returns (no
+   arena capacity overflow), what the Reads handed out followed by the bytes left in the iovec after finish is the reference
+   encoding of the concatenated input -- to which C01_byte_level applies: any segmentation of it decodes to the input. *)
+From WP Require iovec.Geo hcobs.GeoEnc hcobs.GeoEncProofs.
+Theorem C01_geo_encoder (mi ms : nat) ops e h g ge' h' g' out hf gf (dec_pieces : list (list byte)) :
+  0 < mi <= 252 -> 0 < ms < RADIX * RADIX ->
+  Forall GeoEncProofs.simple ops ->
+  GeoEnc.ge_new [] Geo.empty_iov mi = Some (e, h, g) ->
+  GeoEncProofs.ge_run ms e h g ops = Some (ge', h', g', out) ->
+  GeoEnc.ge_terminate ge' h' g' = Some (hf, gf) ->
+  out ++ Geo.all_bytes hf gf = encode_ref mi ms (concat (GeoEncProofs.gpieces ops)) /\
+  (concat dec_pieces = out ++ Geo.all_bytes hf gf ->
+   decode_pieces mi ms dec_pieces = Some (concat (GeoEncProofs.gpieces ops))).
+Proof.
+  intros Hmi Hms Hs E0 E1 E2.
+  pose proof (GeoEncProofs.genc_output_is_reference mi ms Hmi Hms ops e h g ge' h' g' out hf gf Hs E0 E1 E2) as H.
+  split; [exact H|]. intros E. rewrite H in E. exact (C01_byte_level mi ms Hmi Hms _ dec_pieces E).
+Qed.
+
+Example C01_geo_example :
+  match GeoEnc.ge_new [] Geo.empty_iov 3 with
+  | Some (e, h, g) =>
+    match GeoEncProofs.ge_run 5 e h g [GeoEnc.GEBorrow [49;50;254]%N; GeoEnc.GERd 1%N; GeoEnc.GECopy [253]%N;
+                                       GeoEnc.GEBorrow [49;50;51;52;53;54;254;253;7]%N] with
+    | Some (ge', h', g', out) =>
+      match GeoEnc.ge_terminate ge' h' g' with
+      | Some (hf, gf) => out ++ Geo.all_bytes hf gf = [3; 49; 50; 254; 5; 0; 253; 49; 50; 51; 52; 2; 0; 53; 54; 1; 0; 7]%N
+      | None => False
+      end
+    | None => False
+    end
+  | None => False
+  end.
+Proof. vm_compute. reflexivity. Qed.
+
 Check C01_roundtrip : forall (mi ms : nat) (ops : list eop) (dec_pieces : list (list byte)),
   0 < mi <= 252 -> 0 < ms < RADIX * RADIX ->
   exists out, encoder_output mi ms ops = Ok (Some out) /\
     (concat dec_pieces = out -> decode_pieces mi ms dec_pieces = Some (concat (pieces_of ops))).
 Print Assumptions C01_roundtrip.
 Print Assumptions C01_roundtrip_prod.
+Print Assumptions C01_geo_encoder.
